@@ -351,9 +351,22 @@ fn scenario(s: Scn) -> ScenarioOut {
     for id in &calls_in_order {
         let (cp, cstep) = call_pos[id];
         let exp = expect.get(id);
-        // triggers made at or after the panic point are outside the oracle
+        // triggers made after the panic point are outside the oracle (the host is gone); the
+        // trigger that hit the Panic barrier is itself a matching trigger: reported exactly once
         if let Some(pid) = expect_panic_call {
-            if call_pos[&pid].0 <= cp {
+            if call_pos[&pid].0 < cp {
+                continue;
+            }
+            if pid == *id {
+                let got = reports.get(id).cloned().unwrap_or_default();
+                let k = exp.map(|e| e.0).unwrap_or(usize::MAX);
+                out.count("panic_barrier_hits", 1);
+                if panicked && (got.len() != 1 || got[0].0 != k) {
+                    let class = if got.is_empty() { "report-missing" } else if got.len() > 1 { "reported-twice" } else { "reported-to-wrong-barrier" };
+                    out.violate(class, format!("C20|{class}|Panic"), format!("trigger #{id} (step {cstep}) hit Panic barrier {k} and panicked its caller, but the barrier's reports for it are {got:?} (expected exactly one)"), desc.clone());
+                } else if panicked {
+                    out.count("panic_barrier_hits_reported_once", 1);
+                }
                 continue;
             }
         }
@@ -432,6 +445,92 @@ fn scenario(s: Scn) -> ScenarioOut {
 /// Synchronous trigger path: the filesystem corruption hook.
 fn corruption_scenario(seed: u64) -> ScenarioOut {
     corruption_scenario_sized(seed, None)
+}
+
+/// A Panic barrier on the corruption trigger: the corrupted read panics its caller (which may
+/// catch it); the barrier is told once; the host's filesystem stays usable, also after the
+/// barrier has been dropped.
+fn corruption_panic_scenario(seed: u64) -> ScenarioOut {
+    use std::cell::RefCell;
+    use std::rc::Rc;
+    let mut out = ScenarioOut::default();
+    let mut r = Rng::new(seed);
+    rec::set_step(0);
+    let mut b = turmoil::Builder::new();
+    b.epoch(epoch(0)).rng_seed(seed).simulation_duration(Duration::from_secs(1000));
+    b.fs().corruption_probability(1.0);
+    let mut sim = b.build();
+    let mut bar: Barrier<FsCorruption> = Barrier::build(Reaction::Panic, |_c: &FsCorruption| true);
+    let nfiles = r.range(1, 2) as usize;
+    let obs: Rc<RefCell<Vec<String>>> = Rc::new(RefCell::new(vec![]));
+    let phase = Rc::new(std::cell::Cell::new(0u32));
+    let (o2, ph2) = (obs.clone(), phase.clone());
+    sim.client("fs", async move {
+        sfs::create_dir_all("/d")?;
+        let files: Vec<sfs::File> = (0..nfiles).map(|i| sfs::OpenOptions::new().read(true).write(true).create(true).open(format!("/d/f{i}")).unwrap()).collect();
+        for f in &files {
+            f.write_all_at(b"0123456789abcdef", 0)?;
+        }
+        // the corrupted read panics; the caller catches it and carries on
+        let res = std::panic::catch_unwind(std::panic::AssertUnwindSafe(|| {
+            let mut buf = [0u8; 8];
+            files[0].read_at(&mut buf, 2)
+        }));
+        o2.borrow_mut().push(format!("read: {}", if res.is_err() { "panicked" } else { "returned" }));
+        // unrelated fs calls that trigger nothing
+        let m = std::panic::catch_unwind(|| sfs::metadata("/d/f0").map(|m| m.len()).map_err(|e| e.kind()));
+        o2.borrow_mut().push(format!("metadata: {m:?}"));
+        ph2.set(1);
+        while ph2.get() != 2 {
+            tokio::time::sleep(Duration::from_millis(1)).await;
+        }
+        // the barrier is gone: a corrupted read returns (corrupted) data again
+        let res = std::panic::catch_unwind(std::panic::AssertUnwindSafe(|| {
+            let mut buf = [0u8; 8];
+            files[0].read_at(&mut buf, 0)
+        }));
+        o2.borrow_mut().push(format!("read after barrier drop: {}", match res { Err(_) => "panicked".to_string(), Ok(r) => format!("{:?}", r.map_err(|e| e.kind())) }));
+        Ok(())
+    });
+    let desc = json!({"corruption_panic_seed": seed});
+    let mut reports = 0;
+    let mut guard = 0;
+    while phase.get() != 1 && guard < 100 {
+        guard += 1;
+        if let Err(p) = util::step_catch(&mut sim) {
+            out.violate("fs-panic-escaped", "C20|fs|panic-escaped".into(), format!("the caught barrier panic still took the step down: {p}"), desc.clone());
+            return out;
+        }
+    }
+    loop {
+        let mut fut = Box::pin(bar.wait());
+        match util::poll_once(&mut fut) {
+            std::task::Poll::Ready(Some(_)) => reports += 1,
+            _ => break,
+        }
+    }
+    drop(bar);
+    phase.set(2);
+    for _ in 0..10 {
+        if let Ok(Ok(true)) = util::step_catch(&mut sim) {
+            break;
+        }
+    }
+    drop(sim);
+    let _ = vcore::take_last_panic();
+    let o = obs.borrow().clone();
+    out.count("fs_panic_barrier_scenarios", 1);
+    let want = vec!["read: panicked".to_string(), "metadata: Ok(Ok(16))".to_string(), "read after barrier drop: Ok(8)".to_string()];
+    if o != want {
+        out.violate("fs-panic-barrier", "C20|fs|panic-barrier-aftermath".into(), format!("Panic barrier on FsCorruption: observed {o:?}, expected {want:?}"), desc.clone());
+    }
+    if reports != 1 {
+        out.violate(if reports == 0 { "fs-report-missing" } else { "fs-report-extra" }, "C20|fs|panic-barrier-report-count".into(), format!("the Panic barrier was hit once and was told {reports} times"), desc.clone());
+    }
+    out.digest = vcore::digest_str(&format!("fspanic{nfiles}{seed}"));
+    out.nontrivial = true;
+    out.sample = Some(json!({"fs_panic_barrier": o}));
+    out
 }
 
 fn corruption_scenario_sized(seed: u64, max_reads: Option<u64>) -> ScenarioOut {
@@ -594,7 +693,9 @@ pub fn run(ctx: &Ctx) -> ! {
     }
     if ctx.replay.is_some() {
         let w = vcore::read_replay(ctx).expect("replay file");
-        let report = if let Some(seed) = w.get("flood_seed").and_then(|x| x.as_u64()) {
+        let report = if let Some(seed) = w.get("corruption_panic_seed").and_then(|x| x.as_u64()) {
+            vcore::run_single(ctx, move |_| corruption_panic_scenario(seed))
+        } else if let Some(seed) = w.get("flood_seed").and_then(|x| x.as_u64()) {
             vcore::run_single(ctx, move |_| scenario(gen_flood(seed)))
         } else if let Some(seed) = w.get("corruption_seed").and_then(|x| x.as_u64()) {
             vcore::run_single(ctx, move |_| corruption_scenario(seed))
@@ -607,12 +708,17 @@ pub fn run(ctx: &Ctx) -> ! {
     let n = ctx.pick(40_000u64, 600_000);
     let nfs = ctx.pick(2000u64, 20_000);
     let nflood = ctx.pick(16u64, 300);
+    let nfspanic = ctx.pick(40u64, 400);
     let c2 = ctx.clone();
     let report = vcore::run_parallel(
         ctx,
-        n + nfs + nflood,
+        n + nfs + nflood + nfspanic,
         RunOpts { budget_s: ctx.pick(60.0, 600.0), scenario_timeout_s: 120.0 },
         move |idx| {
+            if idx >= n + nfs + nflood {
+                let seed = c2.scenario_seed("c20fspanic", idx);
+                return corruption_panic_scenario(seed);
+            }
             if idx < nflood {
                 let seed = c2.scenario_seed("c20flood", idx);
                 let mut out = scenario(gen_flood(seed));
@@ -648,9 +754,9 @@ fn fin() -> Finish<'static> {
         assumptions: vec![
             "trigger_noop is never aimed at a Suspend barrier (documented panic)".into(),
             "barriers are created and dropped only between steps, so liveness at a trigger call is unambiguous".into(),
-            "triggers at or after a Panic-barrier hit are outside the oracle (the host is gone)".into(),
+            "triggers after a Panic-barrier hit are outside the oracle (the host is gone); the hit itself must be reported once".into(),
         ],
         min_distinct: 100,
-        required_counters: vec!["reports_checked", "suspensions_observed", "resumes_observed", "calls_matching_several_barriers", "calls_matching_no_barrier", "panics_surfaced", "fs_corruption_reports", "calls_matching_noop", "flood_scenarios", "fs_sibling_barriers_dropped_before_the_run"],
+        required_counters: vec!["reports_checked", "suspensions_observed", "resumes_observed", "calls_matching_several_barriers", "calls_matching_no_barrier", "panics_surfaced", "fs_corruption_reports", "calls_matching_noop", "flood_scenarios", "fs_sibling_barriers_dropped_before_the_run", "fs_panic_barrier_scenarios", "panic_barrier_hits_reported_once"],
     }
 }
